@@ -43,6 +43,59 @@ Definition z_to_u (k : N) (x : Z) : N := Z.to_N (Z.modulo x (Z.pow 2 (Z.of_N k))
 Definition u_to_int (x : N) : Z :=                                        (* int(x) / int64(x) for a 64-bit unsigned x *)
   let z := Z.of_N (wrap 64 x) in if Z.ltb z 9223372036854775808 then z else (z - 18446744073709551616)%Z.
 
+(* errors.Errorf / errors.New / &T{..}: some non-nil error (the text is not modelled);
+   errors.WithStack / Wrap / Wrapf: nil for nil, otherwise a non-nil error *)
+Definition some_error : error := Some [].
+Definition errors_WithStack (e : error) : error := match e with None => None | Some _ => some_error end.
+
+(* os.FileInfo: the record of what its methods return — IsDir(), Mode() (os.FileMode bits) and Sys(), of which
+   only the type assertion Sys().( *types.Stat ) is translated: [fi_Sys] is Some s when the assertion succeeds
+   (S is instantiated with Model/Stat.v's stat by the translator), None when it fails.  A nil FileInfo cannot
+   be represented: where Go passes nil (deletions) any record may be passed, its methods are then not called
+   by a panic-free run. *)
+Record FileInfo (S : Type) : Type := { fi_IsDir : bool; fi_Mode : N; fi_Sys : option S }.
+Arguments fi_IsDir {S} _.
+Arguments fi_Mode {S} _.
+Arguments fi_Sys {S} _.
+
+(* ---------------------------------------------------------------- slices of any element type
+   (a slice is the list of its elements: capacity, sharing and the difference between nil and empty are not
+   represented; s == nil is "s is empty") *)
+Definition slice_is_nil {A} (s : list A) : bool := match s with [] => true | _ => false end.
+Definition make_slice {A} (n : Z) (zero : A) : list A := repeat zero (Z.to_nat n).
+(* s[i]: Go panics outside 0 <= i < len(s); not modelled, the value is then d (the element type's zero value) *)
+Definition nth_d {A} (s : list A) (i : Z) (d : A) : A := if Z.ltb i 0 then d else nth (Z.to_nat i) s d.
+(* s[i] = x, as a new list; out of range (a panic in Go): unchanged *)
+Fixpoint list_set_nat {A} (s : list A) (i : nat) (x : A) : list A :=
+  match s, i with
+  | [], _ => []
+  | _ :: r, O => x :: r
+  | a :: r, S i' => a :: list_set_nat r i' x
+  end.
+Definition list_set {A} (s : list A) (i : Z) (x : A) : list A := if Z.ltb i 0 then s else list_set_nat s (Z.to_nat i) x.
+(* s[a:b], s[a:], s[:b]; Go panics unless 0 <= a <= b <= cap(s): not modelled, clamped *)
+Definition lslice {A} (s : list A) (a b : Z) : list A := firstn (Z.to_nat (b - a)) (skipn (Z.to_nat a) s).
+Definition lslice_from {A} (s : list A) (a : Z) : list A := skipn (Z.to_nat a) s.
+Definition lslice_to {A} (s : list A) (b : Z) : list A := firstn (Z.to_nat b) s.
+
+(* sort.Search(n, f): Go's algorithm itself,
+       i, j := 0, n; for i < j { h := int(uint(i+j) >> 1); if !f(h) { i = h + 1 } else { j = h } }; return i
+   (h = (i+j)/2: i+j does not overflow uint for 0 <= i <= j <= n <= MaxInt).  f may call loop functions, so it
+   returns option; fuel n+1 suffices because j - i decreases in every iteration. *)
+Fixpoint sort_Search_loop (fuel : nat) (f : Z -> option bool) (i j : Z) : option Z :=
+  match fuel with
+  | O => None
+  | S fuel' =>
+    if Z.ltb i j then
+      let h := Z.shiftr (i + j) 1 in
+      match f h with
+      | None => None
+      | Some b => if negb b then sort_Search_loop fuel' f (h + 1)%Z j else sort_Search_loop fuel' f i h
+      end
+    else Some i
+  end.
+Definition sort_Search (n : Z) (f : Z -> option bool) : option Z := sort_Search_loop (S (Z.to_nat n)) f 0%Z n.
+
 (* int64: two's complement in N.  Arithmetic goes through the signed value and wraps back to 64 bits
    (Go: + - * wrap; / truncates towards zero, % has the sign of the dividend; MinInt64 / -1 wraps;
    division by zero panics — not modelled, Coq's Z.quot x 0 = 0). *)
@@ -87,6 +140,15 @@ Fixpoint bytes_cmp (a b : list N) : comparison :=
   end.
 Definition bytes_ltb (a b : list N) : bool := match bytes_cmp a b with Lt => true | _ => false end.
 Definition bytes_leb (a b : list N) : bool := match bytes_cmp a b with Gt => false | _ => true end.
+
+(* map[string]struct{} as a set: the list of the keys stored so far, newest first (duplicates allowed).
+   Only membership is observable: the translator gives no meaning to len or range on a map.
+   nil and empty maps are the same list; writing to a nil map panics in Go (not modelled). *)
+Definition map_is_nil {A} (m : list A) : bool := match m with [] => true | _ => false end.
+Definition set_mem (k : list N) (m : list (list N)) : bool := existsb (fun x => bytes_eqb k x) m.   (* _, ok := m[k] *)
+Definition set_add (m : list (list N)) (k : list N) : list (list N) := k :: m.                      (* m[k] = struct{}{} *)
+Definition set_del (m : list (list N)) (k : list N) : list (list N) := filter (fun x => negb (bytes_eqb k x)) m.   (* delete(m, k) *)
+
 
 (* ---------------------------------------------------------------- standard library (Linux) *)
 Definition filepath_Separator : N := 47.      (* path/filepath.Separator = '/' *)
@@ -162,6 +224,41 @@ Definition filepath_Clean (p : list N) : list N :=
   let out := clean_joinc (rev (fold_left (clean_step rooted) (clean_comps p) [])) in
   if rooted then filepath_Separator :: out
   else match out with [] => [46]%N | _ => out end.
+(* filepath.IsAbs / Dir / Base for '/': the same text as Model/Path.v's is_abs / dir / base (kind 1203 compares
+   those with the Go library); FromSlash is the identity on Linux *)
+Definition filepath_IsAbs (p : list N) : bool :=
+  match p with a :: _ => N.eqb a filepath_Separator | [] => false end.
+Fixpoint split_last_sep (p : list N) : option (list N * list N) :=
+  match p with
+  | [] => None
+  | a :: p' =>
+    match split_last_sep p' with
+    | Some (d, b) => Some (a :: d, b)
+    | None => if N.eqb a filepath_Separator then Some ([a], p') else None
+    end
+  end.
+Definition filepath_Dir (p : list N) : list N :=
+  match split_last_sep p with
+  | Some (d, _) => filepath_Clean d
+  | None => filepath_Clean []
+  end.
+Fixpoint strip_seps_rev (r : list N) : list N :=
+  match r with
+  | a :: r' => if N.eqb a filepath_Separator then strip_seps_rev r' else r
+  | [] => []
+  end.
+Definition filepath_Base (p : list N) : list N :=
+  match p with
+  | [] => [46]%N
+  | _ =>
+    let q := rev (strip_seps_rev (rev p)) in
+    match q with
+    | [] => [filepath_Separator]
+    | _ => match split_last_sep q with Some (_, b) => b | None => q end
+    end
+  end.
+Definition filepath_FromSlash (p : list N) : list N := p.
+
 (* filepath.Join(elems...): empty elements are ignored, the rest joined with the separator and cleaned;
    "" when nothing is left *)
 Definition filepath_Join (elems : list (list N)) : list N :=
